@@ -31,6 +31,10 @@ func runC15(c *Ctx) {
 	c15IndexResults(c)
 	c15TypeAsserts(c)
 	parserHelperRules(c, "C15")
+	// folds that decide index expressions the table only reviews
+	c12Suffixed(c)
+	c07Read(c)
+	readerReadRules(c, "C15")
 }
 
 // reviewedBounds: function + expression -> why the access is in range. The
